@@ -29,6 +29,12 @@ CHECKS = {
    text="The real pipeline functions are executed in shuffled order, re-executed (immediately, after their operation ended, after downstream operations ran, at the very end) and partly shipped through cloudpickle to a fresh interpreter; the monitor requires every rewrite of a key to carry identical bytes and every array to end with the contents of a plain reference run; results equal NumPy; cubed.random inputs regenerate identical blocks.",
    note="Trusted: TLC; SHA-1 of encoded chunks as content identity; arrays of two builds matched by creation rank.",
    design_ref="DESIGN.md §5 C06"),
+ "C09": dict(
+   engine="DagExec+TaskTrace",
+   technique="TLA+ spec DagExec.tla with Crash/Resume model-checked by TLC (switches ResumeRule=any, CreateMode=w must violate; F13 carved out by the taint StaleByF13); crash points at task and chunk-write granularity enumerated against the real code, resumed runs validated by the TLA+ monitor TaskTrace.tla",
+   text="For each generated program the computation is crashed after k tasks and before/after the k-th data set, storage is inspected by plain directory listing, compute(resume=True) is run under a recording executor and the monitor requires: an operation is skipped only if every output was complete, complete arrays are not recomputed (except array creation and 0-d outputs), nothing is deleted; the result equals NumPy or the resume is refused before any task (plans with structured-dtype arrays only).",
+   note="Trusted: TLC; a crash = client stops between tasks or inside a data set (before/after it took effect); torn single-chunk writes are excluded by LocalStore's atomic rename. Plans <= 60 tasks; quick samples 8 crash points per program, thorough enumerates all.",
+   design_ref="DESIGN.md §5 C09"),
  "C12": dict(
    engine="DagExec+TaskTrace",
    technique="zarr-level write records of every task validated by the TLA+ monitor TaskTrace.tla (value shape = region shape is the enabling condition of the write action); declared vs backing vs result metadata compared in the monitor; DagExec.tla multi-output plan model-checked",
